@@ -110,7 +110,8 @@ def shrink(plan, target, fails, max_cand=300, max_s=90):
                 chunk //= 2
         # 3. environment perturbations, one at a time
         for side in ('hist', 'orac'):
-            for key in ('hash', 'clock', 'junk', 'poison', 'environ', 'host', 'pid', 'cpus', 'mem_pages', 'rng_seed'):
+            for key in ('hash', 'clock', 'junk', 'poison', 'environ', 'environ_extra', 'gc', 'host', 'pid', 'cpus',
+                        'mem_pages', 'rng_seed'):
                 if cur[side].get(key) != PLAIN.get(key):
                     c = copy.deepcopy(cur)
                     c[side][key] = copy.deepcopy(PLAIN.get(key))
